@@ -58,6 +58,11 @@ def run(tier="quick"):
                 if not o.ok and any((X.callee_name(c_) or "") in o.fn.unit.functions for c_ in X.calls_in(o.node)):
                     chk.note("P1: progress of the loop at %s goes through a helper call; not decided" % o.fn.loc(o.node))
                     continue
+                if not o.ok and o.fn.nodes.get(o.node.get("i")) is not o.node:
+                    # a loop of an inlined helper (same policy as the strict bounds of run_cap): what the helper's cursor is -
+                    # a value handed in through a structure of the caller - is weaker knowledge than a local of the scanner
+                    chk.note("P1: progress of the loop at line %s of a helper inlined into %s is not established; not decided" % (o.node.get("l"), o.fn.name))
+                    continue
                 chk.ob("P1", o.fn.name, "progress:loop%d" % k, o.ok, loc=o.fn.loc(o.node), detail="%s: %s" % (o.fn.name, o.detail),
                        proof="a cursor/index strictly advances on every path through the body")
     # S2: the word loops treat every word on its own: only the variables named by the loop header survive an iteration
@@ -88,7 +93,7 @@ def run(tier="quick"):
             for x in walk(g.body):
                 if x.get("k") == "assign" and x.get("op") == "=" and X.strip(x["ch"][0]).get("k") == "member" and X.const_val(x["ch"][1]) is not None \
                         and (X.strip(x["ch"][0]).get("tw") or 0) == 8:
-                    nm_ = X.strip(x["ch"][0])["n"]
+                    nm_ = (X.strip(x["ch"][0]).get("rec"), X.strip(x["ch"][0])["n"])      # a field of one record type
                     v_ = X.const_val(x["ch"][1])
                     consts[nm_] = v_ if consts.get(nm_, v_) == v_ else None
         consts = {k_: v_ for k_, v_ in consts.items() if v_ is not None}
